@@ -2,6 +2,7 @@ mod attrcase;
 mod bincase;
 mod cross;
 mod db;
+mod det;
 mod dom;
 mod foreign;
 mod gen;
@@ -101,6 +102,12 @@ fn main() {
         "attr-foreign" => {
             let stdin = std::io::stdin();
             attrcase::run_foreign(&mut stdin.lock(), &mut out);
+        }
+        "det-cases" => {
+            let seed: u64 = arg(&args, "--seed", "1").parse().unwrap();
+            let count: usize = arg(&args, "--count", "100").parse().unwrap();
+            let variant: u64 = arg(&args, "--variant", "0").parse().unwrap();
+            det::run(seed, count, variant, &mut out);
         }
         "export-db" => {
             db::export(rbx_reflection_database::get(), &mut out);
